@@ -321,7 +321,7 @@ func renderClientFile(format string, c *v1.ClientCommonConfig, tp *v1.TCPProxyCo
 
 func TestWireConfidentiality(t *testing.T) {
 	fx.Prelease(3)
-	fx.Run(t, fx.Spec[WCase]{Prop: "C05", Name: "wire_confidentiality", Quick: 160, Thorough: 5000, Gen: genW, Run: runW, ShrinkTime: "40s",
+	fx.Run(t, fx.Spec[WCase]{Prop: "C05", Name: "wire_confidentiality", Journal: true, Quick: 160, Thorough: 5000, Gen: genW, Run: runW, ShrinkTime: "40s",
 		Class: func(c WCase) fx.Class {
 			cc := c
 			cc.Seed = 0
@@ -616,7 +616,7 @@ func (p *prefixConn) Read(b []byte) (int, error) {
 
 func TestIdentityMatrix(t *testing.T) {
 	fx.Prelease(2)
-	fx.Run(t, fx.Spec[ICase]{Prop: "C05", Name: "identity_matrix", Quick: 400, Thorough: 12000, Gen: genI, Run: runI, ShrinkTime: "40s",
+	fx.Run(t, fx.Spec[ICase]{Prop: "C05", Name: "identity_matrix", Journal: true, Quick: 400, Thorough: 12000, Gen: genI, Run: runI, ShrinkTime: "40s",
 		Class: func(c ICase) fx.Class {
 			refuse := (c.Side == "server" && (c.Force || c.ServerCA)) || (c.Side == "client" && c.ClientCA)
 			return fx.Class{NonTrivial: refuse, Fingerprint: fmt.Sprintf("%+v", c), Labels: []string{"side=" + c.Side}}
